@@ -76,6 +76,77 @@ def install(eng, c, runner):
         a, b = args
         return s_bool(simp(same_value_term(e.box(a), e.box(b))))
 
+    def f_same_ref(e, args, kw):
+        a, b = args
+        return s_bool(simp(e.box(a) == e.box(b)))
+
+    # ---- frame conditions over the heap ---------------------------------------------------------
+    def heap_array(e, heap, name):
+        return heap.get(name) if heap.get(name) is not None else z3.Const(f"H0_{name}", z3.ArraySort(z3.IntSort(), e.p.field_sort(name)))
+
+    def f_heap_snapshot(e, args, kw):
+        e.keepalive.extend(e.p.heap.values())
+        return s_py(("heap", dict(e.p.heap), e.p.nalloc))
+
+    def f_heap_unchanged(e, args, kw):
+        """heap_unchanged(snap, (obj, "field"), (dictref, "dict"), ...): every heap location not listed holds its
+        value of the snapshot (objects allocated since the snapshot are not constrained)"""
+        _, old, nalloc0 = args[0].py
+        allowed = {}
+        for a in args[1:]:
+            a = e.refine(a)
+            o, fld = e.refine(a.items[0]), conc_str(e.refine(a.items[1]).t)
+            names = ["dict.dom", "dict.map", "dict.order"] if fld == "dict" else [fld]
+            if o.kind == "none":
+                continue
+            if o.kind != "ref":
+                raise Unsupported("heap_unchanged: location of a non-reference")
+            for n in names:
+                allowed.setdefault(n, []).append(o.ref)
+        conj = []
+        fresh_lo = e.p.alloc0 + nalloc0
+        for name in sorted(set(old) | set(e.p.heap)):
+            o_arr, n_arr = heap_array(e, old, name), heap_array(e, e.p.heap, name)
+            if o_arr is n_arr or o_arr.eq(n_arr):
+                continue
+            exp = o_arr
+            for r in allowed.get(name, []):
+                exp = z3.Store(exp, r, z3.Select(n_arr, r))
+            # locations of objects allocated after the snapshot are free
+            for i in range(nalloc0, e.p.nalloc):
+                r = simp(e.p.alloc0 + i)
+                exp = z3.Store(exp, r, z3.Select(n_arr, r))
+            conj.append(exp == n_arr)
+        return s_bool(simp(z3.And(conj)) if conj else True)
+
+    def f_dict_after_store(e, args, kw):
+        """dict_after_store(snap, d, key, value): d now maps key to value, every other key as in the snapshot,
+        insertion order extended by key iff it was absent"""
+        _, old, _n = args[0].py
+        d, k, v = e.refine(args[1]), e.refine(args[2]), args[3]
+        if d.kind != "ref" or k.kind != "str":
+            raise Unsupported("dict_after_store arguments")
+        dom0 = z3.Select(heap_array(e, old, "dict.dom"), d.ref)
+        map0 = z3.Select(heap_array(e, old, "dict.map"), d.ref)
+        ord0 = z3.Select(heap_array(e, old, "dict.order"), d.ref)
+        dom1, map1, ord1 = e.p.hread("dict.dom", d.ref), e.p.hread("dict.map", d.ref), e.p.hread("dict.order", d.ref)
+        had = z3.Select(dom0, k.t)
+        return s_bool(simp(z3.And(dom1 == z3.Store(dom0, k.t, True), map1 == z3.Store(map0, k.t, e.box(v)),
+                                  ord1 == z3.If(had, ord0, z3.Concat(ord0, z3.Unit(k.t))))))
+
+    def f_dict_after_remove(e, args, kw):
+        """dict_after_remove(snap, d, key): key absent, every other key as in the snapshot"""
+        _, old, _n = args[0].py
+        d, k = e.refine(args[1]), e.refine(args[2])
+        if d.kind != "ref" or k.kind != "str":
+            raise Unsupported("dict_after_remove arguments")
+        dom0 = z3.Select(heap_array(e, old, "dict.dom"), d.ref)
+        map0 = z3.Select(heap_array(e, old, "dict.map"), d.ref)
+        dom1, map1 = e.p.hread("dict.dom", d.ref), e.p.hread("dict.map", d.ref)
+        j = z3.String("k!frame")
+        return s_bool(simp(z3.And(dom1 == z3.Store(dom0, k.t, False),
+                                  z3.ForAll([j], z3.Implies(j != k.t, z3.Select(map1, j) == z3.Select(map0, j))))))
+
     def f_same_outcome(e, args, kw):
         r, x = e.refine(args[0]), e.refine(args[1])
         k1, k2 = conc_str(r.items[0].t), conc_str(x.items[0].t)
@@ -115,7 +186,8 @@ def install(eng, c, runner):
         return s_bool(simp(M.is_js_value(e.box(args[0]))))
 
     ex.update(assume=f_assume, check=f_check, cover=f_cover, outcome=f_outcome, es_outcome=f_es_outcome,
-              same_value=f_same_value, same_outcome=f_same_outcome, exc_in=f_exc_in, is_number=f_is_number,
+              same_value=f_same_value, same_ref=f_same_ref, same_outcome=f_same_outcome, heap_snapshot=f_heap_snapshot,
+              heap_unchanged=f_heap_unchanged, dict_after_store=f_dict_after_store, dict_after_remove=f_dict_after_remove, exc_in=f_exc_in, is_number=f_is_number,
               fresh=f_fresh, ghost_set=f_ghost_set, ghost_get=f_ghost_get, is_js_value=f_is_js_value)
     for k, v in list(ex.items()):
         ex[k] = s_py(v, "func")
@@ -231,5 +303,28 @@ def a_typeof_obj(e, args):
     return s_str(z3.If(M.cls_in(v, e.ct.callable_classes() + ["JSFunction"]), z3.StringVal("function"), z3.StringVal("object")))
 
 
-ABSTRACT = {"obj2num": a_obj2num, "obj2str": a_obj2str, "typeof_obj": a_typeof_obj,"str2num": a_str2num, "num2str": a_num2str, "py_lower": a_lower, "py_upper": a_upper,
+def a_array_own(e, args):
+    o, k = e.refine(args[0]), e.refine(args[1])
+    f = z3.Function("array_own", ValSeq, z3.StringSort(), z3.BoolSort())
+    e.p.uf_used.add("array_own")
+    elems = e.refine(e.getattr(o, "_elements"))
+    if elems.kind != "ref":
+        raise Unsupported(f"array_own: _elements is {elems.kind}")
+    return s_bool(f(e.p.hread("list.items", elems.ref), k.t))
+
+
+def a_array_get_own(e, args):
+    o, k = e.refine(args[0]), e.refine(args[1])
+    f = z3.Function("array_get_own", ValSeq, z3.StringSort(), Val)
+    e.p.uf_used.add("array_get_own")
+    elems = e.refine(e.getattr(o, "_elements"))
+    if elems.kind != "ref":
+        raise Unsupported(f"array_get_own: _elements is {elems.kind}")
+    t = f(e.p.hread("list.items", elems.ref), k.t)
+    e.p.assume(M.val_wf(t))
+    e.p.assume(z3.Implies(Val.is_VRef(t), Val.ref(t) < e.p.alloc0 + e.p.nalloc))
+    return s_val(t)
+
+
+ABSTRACT = {"array_own": a_array_own, "array_get_own": a_array_get_own, "obj2num": a_obj2num, "obj2str": a_obj2str, "typeof_obj": a_typeof_obj,"str2num": a_str2num, "num2str": a_num2str, "py_lower": a_lower, "py_upper": a_upper,
             "es_trim": a_es_trim}
